@@ -345,52 +345,7 @@ def run(ctx):
 
     # ------------------------------------------------------------------ R8
     ctx.rule("R8", "FCHK run-type strings written are understood by the reader", "run_type is lost (None) after a save/reload cycle")
-    # the straight-line header code of the writer, evaluated for every documented run type
-    from ..consteval import _Env
-
-    body = list(do.body)
-    start = None
-    for i, st_ in enumerate(body):
-        if isinstance(st_, ast.Assign) and isinstance(st_.targets[0], ast.Name) and "run_type" in src_of(st_.value):
-            start = i
-            itemsvar = st_.targets[0].id
-            break
-    emitted_of = {}
-    if start is None:
-        ctx.violate("R8", "cannot find the run-type header code of the FCHK writer", do, do.node, construct="run-type header code")
-    else:
-        for rt in RUN_TYPES:
-            env = _Env(ce, do.module, do, {itemsvar: [rt, "NA", "NA"]})
-            val = None
-            try:
-                for st_ in body[start + 1:]:
-                    if isinstance(st_, ast.Expr) and isinstance(st_.value, ast.Call) and getattr(st_.value.func, "id", "") == "print":
-                        arg = st_.value.args[0]
-                        fv = [x for x in arg.values if isinstance(x, ast.FormattedValue)][0] if isinstance(arg, ast.JoinedStr) else arg
-                        val = env.eval(fv.value if isinstance(fv, ast.FormattedValue) else fv)
-                        break
-                    env.run([st_])
-            except NotConstant as exc:
-                raise AnalysisError(f"FCHK writer header code is outside the constant-evaluation whitelist: {exc}") from exc
-            emitted_of[rt] = val
-    rmap = None
-    for n in lo.own_nodes():
-        if isinstance(n, ast.Dict) and n.values and all(isinstance(v, ast.Constant) and v.value in RUN_TYPES for v in n.values):
-            rmap = {k.value: v.value for k, v in zip(n.keys, n.values)}
-            rnode = n
-    if rmap is None:
-        ctx.violate("R8", "cannot find the reader's run-type mapping", lo, lo.node, construct="run-type mapping")
-    else:
-        lost = []
-        for rt in RUN_TYPES:
-            emitted = emitted_of.get(rt)
-            back = rmap.get(emitted)
-            if back == rt:
-                ctx.ok("R8", f"run_type '{rt}' is written as '{emitted}' and read back as '{back}'", f"{do.module.relpath}:{rnode.lineno}")
-            else:
-                lost.append(f"{rt}->{emitted}->{back}")
-        if lost:
-            ctx.violate("R8", f"documented run types are written with strings the reader does not map back (its keys are {sorted(rmap)}): {lost}; the run type is lost on reload", lo, rnode, construct="run_type vocabulary: " + ", ".join(lost))
+    check_fchk_run_types(ctx, "R8")
 
     # ------------------------------------------------------------------ R9
     ctx.rule("R9", "every option a format entry point accepts reaches its body (per-frame routines get the caller's options)", "an option such as atom_columns is accepted but silently ignored on one path: the trajectory is written/read with defaults")
@@ -1032,13 +987,33 @@ def check_poscar_pair(ctx, rid):
     ctx.ok(rid, "poscar: cell, element groups (heaviest first, original order within a group) and Cartesian positions of a non-orthogonal model cell come back from the VASP header reader", f"{do.module.relpath}:{do.lineno}")
 
 
-def check_fchk_field_routing(ctx, rid):
-    """The routing part of the FCHK writer and reader as a whole: `dump_one` is interpreted on a model object (two
-    atoms, two s shells, restricted orbitals, every optional attribute set to values that all differ) with the four
-    field writers replaced by a recorder; `load_one` is interpreted with the low-level field reader replaced by that
-    record (header fields as the writer prints them).  No text is produced or parsed here -- the formatting of fields
-    is the business of C02-R14 / R16 / R21 -- what is decided is which attribute goes to which label and back, with
-    which factor, permutation and packing."""
+def check_fchk_run_types(ctx, rid):
+    """Every documented run type survives an FCHK round trip of the header: dump_one (field writers stubbed) prints the
+    two header lines for a model object with that run type; `_load_fchk_low` is interpreted on those two lines (model
+    LineIterator) and load_one on its result (the remaining fields taken from the recorder)."""
+    from ..accessors import AccessorEval, Raised, Rec
+
+    prog = ctx.prog
+    lo = prog.format_op("fchk", "load_one")
+    lost = []
+    for rt in RUN_TYPES:
+        out = _fchk_model_roundtrip(ctx, rid, run_type=rt, real_header=True)
+        if out is None:
+            return
+        res, header = out
+        back = res.get("run_type")
+        if back == rt:
+            ctx.ok(rid, f"run_type '{rt}' is written as `{header[1].split()[0] if header[1].split() else ''}` and read back as '{back}'", f"{lo.module.relpath}:{lo.lineno}")
+        else:
+            lost.append(f"{rt} -> `{header[1].strip()[:20]}` -> {back!r}")
+    if lost:
+        ctx.violate(rid, f"documented run types do not survive the FCHK header: {lost}; the run type is lost or changed on reload", lo, lo.node, construct="run_type vocabulary: " + ", ".join(lost)[:150])
+
+
+def _fchk_model_roundtrip(ctx, rid, run_type="freq", real_header=False):
+    """dump_one on the model object (field writers recorded), load_one on the record; returns (result, header lines,
+    model fields, expected values, number of fields) or None after reporting a violation.  With `real_header` the two
+    header lines the writer prints are parsed by the interpreted `_load_fchk_low` instead of being given."""
     from ..accessors import AccessorEval, Raised, Rec, TextSink
     from ..consteval import ConstEval, NotConstant
     from ..symarr import NotSymbolic
@@ -1074,7 +1049,7 @@ def check_fchk_field_routing(ctx, rid):
         one_rdms={"scf": np.array([[1.5, 0.25], [0.25, 0.5]]), "scf_spin": np.array([[0.125, -0.75], [-0.75, 0.0625]])},
     )
     f0.update(want)
-    f0.update(run_type="freq", _atcorenums=np.array([6.0, 1.0]))
+    f0.update(run_type=run_type, _atcorenums=np.array([6.0, 1.0]))
     f0["obasis"] = Rec(bcls, shells=[sh(0, [5.0, 1.0], [[0.4], [0.6]]), sh(1, [0.7], [[1.0]])], conventions=conv, primitive_normalization="L2")
     f0["mo"] = Rec(mocls, kind="restricted", norba=2, norbb=2, occs=np.array([2.0, 0.0]), coeffs=np.array([[0.6, 0.8], [0.7, -0.5]]), energies=np.array([-1.5, 0.25]), irreps=None, occs_aminusb=None)
     got = {}
@@ -1089,12 +1064,21 @@ def check_fchk_field_routing(ctx, rid):
         ev.module = do.module
         ev._globals = {("iodata.utils", "amu"): AMU}
         ev.stubs = {f"iodata.formats.fchk.{nm}": cap for nm in ("_dump_integer_scalars", "_dump_integer_arrays", "_dump_real_arrays", "_dump_real_scalars")}
-        ev.run_free(do, [TextSink(), Rec(iocls, **f0)], {})
+        sink = TextSink()
+        ev.run_free(do, [sink, Rec(iocls, **f0)], {})
+        header = (sink.text.split("\n") + ["", ""])[:2]
         if "<twice>" in got:
             ctx.violate(rid, f"fchk.dump_one writes the field '{got['<twice>']}' twice for one object: the reader keeps one of them", do, do.node, construct=f"fchk routing: {got['<twice>']} twice")
             return
         fields = {k: (np.asarray(v) if isinstance(v, (list, tuple, np.ndarray)) else v) for k, v in got.items()}
-        fields.update(title="model", command="FREQ", lot="HF", obasis_name="STO-3G")
+        if real_header:
+            licls = prog.cls("iodata.utils.LineIterator")
+            lit = Rec(licls, filename="F", fh=iter([header[0] + "\n", header[1] + "\n"]), lineno=0, stack=[])
+            evh = AccessorEval(prog, licls, limit=4000)
+            evh.module = low.module
+            fields.update(evh.run_free(low, [lit, []], {}))
+        else:
+            fields.update(title="model", command="FREQ", lot="HF", obasis_name="STO-3G")
         ev = AccessorEval(prog, iocls, limit=80000)
         ev.module = lo.module
         ev._globals = {("iodata.utils", "amu"): AMU}
@@ -1107,6 +1091,28 @@ def check_fchk_field_routing(ctx, rid):
         raise AnalysisError(f"fchk.dump_one / load_one are outside the evaluation whitelist: {exc}") from exc
     if not isinstance(res, dict):
         raise AnalysisError("fchk.load_one did not return a dictionary")
+    if real_header:
+        return res, header
+    return res, header, f0, want, got, do, lo, AMU
+
+
+def check_fchk_field_routing(ctx, rid):
+    """The routing part of the FCHK writer and reader as a whole: `dump_one` is interpreted on a model object (two
+    atoms, two s shells, restricted orbitals, every optional attribute set to values that all differ) with the four
+    field writers replaced by a recorder; `load_one` is interpreted with the low-level field reader replaced by that
+    record (header fields as the writer prints them).  No text is produced or parsed here -- the formatting of fields
+    is the business of C02-R14 / R16 / R21 -- what is decided is which attribute goes to which label and back, with
+    which factor, permutation and packing."""
+    from ..accessors import AccessorEval, Raised, Rec, TextSink
+    from ..consteval import ConstEval, NotConstant
+    from ..symarr import NotSymbolic
+
+    from ..accessors import Rec
+
+    out = _fchk_model_roundtrip(ctx, rid)
+    if out is None:
+        return
+    res, header, f0, want, got, do, lo, AMU = out
 
     def same_value(a, b):
         if isinstance(b, dict):
